@@ -4,7 +4,7 @@ import json, subprocess
 hook_commits = ["6e56b58"]
 checks = {
  "C01": dict(cat="exploration", ref="DESIGN.md §4 C01",
-   text="Seeded search over (7 parsers x literal types x config flags) x (grammar-valid / mutated / arbitrary inputs) x (constructors, chunk sizes 1..16384) x (read plans down to 1 byte per read, boundary-targeted cuts, Interrupted bursts): the full transcript (items, clean end or error kind, line, column, message) must equal that of the same parser fed by a one-shot source. Evidence, not proof: partitions of an input are exponential, they are sampled.",
+   text="Seeded search over (7 parsers x literal types x config flags) x (grammar-valid / mutated / arbitrary inputs) x (constructors, chunk sizes 1..16384) x (read plans down to 1 byte per read, boundary-targeted cuts, Interrupted bursts): the full transcript (items, clean end or error kind, line, column, message) must equal that of the same parser fed by a one-shot source. AIGER section readers also run under early-exit patterns (the caller leaves sections before their end), parsers are also built on an already advanced reader, and a second component (C01g) uses documents with one item of 64..160 MiB. Evidence, not proof: partitions of an input are exponential, they are sampled.",
    note="Differential against the same code under the trivial schedule; trusted: SimSource, std BufReader. A defect that shows under every schedule alike is by construction not reported here (that is C05/C06 territory).",
    tech="deterministic simulation: real parsers over a simulated Read seam with seeded short reads / EINTR / chunk sizes, differential against the one-shot schedule"),
  "C04": dict(cat="fault_enumeration", ref="DESIGN.md §4 C04",
@@ -12,7 +12,7 @@ checks = {
    note="Trusted: SimSource's record of whether the failing read() was issued; the fault-free run of the same parser as reference.",
    tech="deterministic simulation with fault injection: terminal read error injected at every offset of each sampled input, checked against the fault-free run"),
  "C02": dict(cat="exploration", ref="DESIGN.md §4 C02",
-   text="Seeded search over operation histories x read schedules x constructors on the real DeferredReader, each checked after every operation against a Vec+cursor reference model (window content, position, mark, flags, parked error, request results). Evidence, not proof: histories are sampled, not enumerated.",
+   text="Seeded search over operation histories x read schedules x constructors on the real DeferredReader, each checked after every operation against a Vec+cursor reference model (window content, position, mark, flags, parked error, request results); EINTR storms of up to 100000 consecutive Interrupted results, chunk sizes up to 4 MiB; a second component (C02m) streams more than 2^32 bytes through one reader and checks position(), mark() and window content at every record. Evidence, not proof: histories are sampled, not enumerated.",
    note="Trusted: the simulated source's own log (bytes delivered), std's BufReader/Chain/Cursor, the reference model (~100 lines). Both native builds (debug assertions + overflow checks on / off).",
    tech="deterministic simulation: seeded operation histories on the real reader over a simulated Read seam, reference-model refinement check after every step"),
  "C08": dict(cat="exploration", ref="DESIGN.md §4 C08",
@@ -24,11 +24,11 @@ checks = {
    note="Trusted: item completion offsets from the generators (validated against the number of handed-out items), the peer, the source log.",
    tech="deterministic simulation: two-party lock-step protocol between a simulated line-buffered producer and the real streaming parsers; read-call accounting on the simulated source"),
  "C10": dict(cat="exploration", ref="DESIGN.md §4 C10",
-   text="Seeded streams (never materialised) of 8..128 x the bound are pushed through the real cnf/wcnf/gcnf/btor2/aag/aig streaming parsers under seeded chunk sizes (1..16384) and read-size policies (full, one line per read, one byte, random, Interrupted); a counting allocator with per-thread counters observes the peak live heap at every item; oracle: peak - baseline <= 16*chunk + 32*max_item + 64 KiB, independent of the stream length. Streams contain bursts of up to 2*10^5 consecutive comment-only / blank-only / mixed filler lines.",
+   text="Seeded streams (never materialised) of 8..128 x the bound are pushed through the real cnf/wcnf/gcnf/btor2/aag/aig streaming parsers under seeded chunk sizes (1..16384) and read-size policies (full, one line per read, one byte, random, Interrupted); a counting allocator with per-thread counters observes the peak live heap at every item; oracle: peak - baseline <= 16*chunk + 32*max_item + 64 KiB, independent of the stream length. Streams contain bursts of up to 2*10^5 consecutive comment-only / blank-only / mixed filler lines. A second component (C10r) does the same for consumers of the raw reader API that keep a fixed look-ahead buffered (request(L) per record, request_byte_at_offset(L-1), or request_more() + buf() only), with max(L, record) in the role of the largest item.",
    note="Trusted: the counting allocator (wraps System), the bound's constants (>= 2x slack over the reader's own policy; a leak must grow by more than 1/8 byte per streamed byte to be seen at the minimum stream length).",
    tech="deterministic simulation: unbounded generated source + counting allocator, peak live heap checked against a stream-length-independent bound at every item"),
  "C11": dict(cat="exploration", ref="DESIGN.md §4 C11",
-   text="Seeded search over operation histories x sink behaviours (accept-all, short writes, Interrupted, Ok(0), errors at any call) x buffer capacities (0..300 via the verif hook, and the shipped 16 KiB) on the real DeferredWriter, checked step by step against a byte-stream model and the sink's call log; the real format writers are part of the workload. Evidence, not proof.",
+   text="Seeded search over operation histories x sink behaviours (accept-all, short writes incl. gathering write_vectored, Interrupted incl. storms of up to 100000, Ok(0), errors at any call; the writer may be dropped while the thread unwinds from an unrelated panic) x buffer capacities (0..300 via the verif hook, and the shipped 16 KiB) on the real DeferredWriter, checked step by step against a byte-stream model and the sink's call log; the real format writers are part of the workload. Evidence, not proof.",
    note="Trusted: std::fmt for expected integer text, std::io::Write::write_all, the model. Failing-sink 'selection' clause is a subsequence match over random payload bytes (see evidence assumptions).",
    tech="deterministic simulation: seeded operation histories on the real writer over a simulated Write seam with injected short writes / EINTR / errors, reference byte-stream model"),
  "C14": dict(cat="exploration", ref="DESIGN.md §4 C14",
